@@ -2,6 +2,7 @@
    Only statements, `exact`, and Print Assumptions live here. *)
 From Coq Require Import List String Bool.
 From RC Require Import lib.Pep440 lib.Name model.Merge proofs.MergeP.
+Import ListNotations.
 
 Theorem C17_merge_accepts :
   forall a b m, merge (Some a) (Some b) = Ok m ->
@@ -46,3 +47,13 @@ Theorem C17_reduce_keeps_bounds :
   forall r, In r rs -> exists m, In m out /\ stronger m r.
 Proof. exact reduce_keeps_bounds. Qed.
 Print Assumptions C17_reduce_keeps_bounds.
+
+(* (after /repo 668e668) the requirements one distribution places on a project - however the project is
+   spelled in each of them, in whatever order they are listed - are reduced to ONE requirement, stored under
+   the project's normalised name, that is at least as strong as each of them. *)
+Theorem C17_reduce_one_requirement_per_project :
+  forall rs acc, reduce_acc rs [] = Ok acc ->
+  NoDup (map fst acc) /\
+  forall r, In r rs -> exists m, In (norm (safe_name (rname r)), m) acc /\ stronger m r.
+Proof. exact reduce_one_per_project. Qed.
+Print Assumptions C17_reduce_one_requirement_per_project.
